@@ -487,6 +487,19 @@ static const char *grisu3_parse_double(const char *buf, size_t len, double *resu
             /* We don't accept numbers without leading or trailing digit. */
             return 0;
         }
+        if (fraction == 0) {
+            /*
+             * Leading zeros of a pure fraction scale the value but are
+             * not significant digits. Counting them in `fraction_exp`
+             * would hide the scale from the exponent range checks and
+             * from the fast case in `grisu3_encode_double`.
+             */
+            while (buf != end && *buf == '0') {
+                ++buf;
+                --exponent;
+            }
+            k = buf;
+        }
         while (buf != end && *buf >= '0' && *buf <= '9') {
             if (fraction >= UINT64_MAX / 10) {
                 if (!ulp_half_error) {
